@@ -2,6 +2,7 @@ package main
 
 import (
 	"fmt"
+	"os"
 	"go/types"
 
 	"golang.org/x/tools/go/ssa"
@@ -72,6 +73,19 @@ func (in *Interp) objMut(id int) *Object {
 	return nil
 }
 
+func (in *Interp) stackString() string {
+	s := ""
+	for i := len(in.stack) - 1; i >= 0 && i > len(in.stack)-14; i-- {
+		fr := in.stack[i]
+		s += "\n    " + fr.fn.String()
+		if fr.cur != nil && fr.cur.Pos().IsValid() {
+			p := in.prog.Fset.Position(fr.cur.Pos())
+			s += fmt.Sprintf(" (%s:%d)", shortFile(p.Filename), p.Line)
+		}
+	}
+	return s
+}
+
 func (in *Interp) checkAccess(p Ptr, n int, write bool) *Object {
 	if p.ID == 0 {
 		in.gopanic("nil pointer dereference")
@@ -87,7 +101,11 @@ func (in *Interp) checkAccess(p Ptr, n int, write bool) *Object {
 		if n == 0 && p.Off >= 0 && p.Off <= len(o.conc) {
 			return o
 		}
-		panic(&goPanic{kind: fmt.Sprintf("unsafe out-of-bounds access off=%d n=%d size=%d", p.Off, n, len(o.conc)), pos: in.where()})
+		kind := fmt.Sprintf("unsafe out-of-bounds access off=%d n=%d size=%d", p.Off, n, len(o.conc))
+		if os.Getenv("GOSYM_STACK") != "" {
+			kind += in.stackString()
+		}
+		panic(&goPanic{kind: kind, pos: in.where()})
 	}
 	if write && o.ro {
 		in.gopanic("write to read-only memory")
